@@ -7,7 +7,8 @@
       whole statement C01 follows for every configuration, every k and every pair of arrival schedules. *)
 From Coq Require Import List Arith Bool Lia.
 From PD Require Import Base SdlModel SdlProofs SdlMapProofs SdlIterWorker SdlFault.
-From PD Require Import SdlIterRef SdlIterProofs.
+From PD Require Import SdlIterRef.
+From PD Require Import SdlIterProofs.
 Import ListNotations.
 Open Scope nat_scope.
 
@@ -709,6 +710,82 @@ End NoSnapshotsChain.
 Check iter_resume_chain_I0.
 Print Assumptions iter_resume_chain_I0.
 
+(* frame: _num_yielded moves only when a batch is handed out, and then by exactly one *)
+Section NyFrame.
+Variable c : cfg.
+
+Lemma try_put_ny s : m_ny (try_put_index c s) = m_ny s.
+Proof.
+  unfold try_put_index, fail.
+  repeat match goal with |- context [match ?x with _ => _ end] => destruct x end; reflexivity.
+Qed.
+
+Lemma skip_ny : forall fuel s, m_ny (snd (skip_retired fuel s)) = m_ny s.
+Proof.
+  induction fuel as [|f IH]; intros s; [reflexivity|]. cbn [skip_retired].
+  destruct (m_rcvd s <? m_send s); [|reflexivity].
+  destruct (info_get (m_info s) (m_rcvd s)) as [[w r]|].
+  - destruct ((match r with Some _ => true | None => false end) || nth w (m_status s) false); [reflexivity|]. rewrite IH. reflexivity.
+  - rewrite IH. reflexivity.
+Qed.
+
+Lemma take_snapshot_ny s : m_ny (take_snapshot c s) = m_ny s.
+Proof.
+  unfold take_snapshot, fail. destruct (pop_msnaps (m_msnaps s) (m_rcvd s - 1) None) as [p rest].
+  destruct p as [[i m]|]; [destruct (i =? m_rcvd s - 1)|]; try reflexivity; cbn [m_assert]; destruct (m_assert s); reflexivity.
+Qed.
+
+Lemma process_data_ny s r w st o s' : process_data c s r w st = (o, s') ->
+  match o with OBatch _ => m_ny s' = S (m_ny s) | _ => True end.
+Proof.
+  unfold process_data. destruct r as [b| |]; intros E; [|injection E as <- _; exact I | injection E as <- _; exact I].
+  match type of E with context [if ?b then _ else _] => destruct b end.
+  - match type of E with context [m_assert ?S] => destruct (m_assert S) eqn:EA end; injection E as <- <-; [exact I|].
+    cbn [m_ny]. rewrite take_snapshot_ny. cbn [m_ny]. rewrite try_put_ny. reflexivity.
+  - cbn [m_assert] in E. destruct (m_assert (try_put_index c s)); injection E as <- <-; [exact I|]. cbn [m_ny]. rewrite try_put_ny. reflexivity.
+Qed.
+
+Lemma arrive_ny s w : m_ny (snd (arrive c s w)) = m_ny s.
+Proof.
+  unfold arrive, fail. destruct (wk_q (nth w (m_workers s) wk_fresh)) as [|t q]; [destruct (m_assert s); reflexivity|].
+  destruct (worker_fetch c w _ t) as [[r st] k']. reflexivity.
+Qed.
+
+Lemma next_data_f_ny : forall fuel s cr evs o s' cr' evs', next_data_f fuel c s cr evs = (o, s', cr', evs') ->
+  match o with FO (OBatch _) => m_ny s' = S (m_ny s) | _ => True end.
+Proof.
+  induction fuel as [|f IH]; intros s cr evs o s' cr' evs' E; [injection E as <- _ _ _; exact I|].
+  cbn [next_data_f] in E. pose proof (skip_ny (S (m_send s)) s) as Es.
+  destruct (skip_retired (S (m_send s)) s) as [found s1]. cbn [snd] in Es. rewrite <- Es. clear Es.
+  destruct found; cbn [negb] in E; [|injection E as <- _ _ _; exact I].
+  destruct (info_get (m_info s1) (m_rcvd s1)) as [[w [[r st]|]]|].
+  1:{ destruct r as [b| |].
+    + destruct (process_data c _ (RData b) w st) as [o2 s2] eqn:EP. injection E as <- <- _ _. exact (process_data_ny _ _ _ _ _ _ EP).
+    + apply IH in E. exact E.
+    + destruct (process_data c _ RErr w st) as [o2 s2] eqn:EP. injection E as <- <- _ _. exact (process_data_ny _ _ _ _ _ _ EP). }
+  all: (
+  match type of E with context [m_outst ?S =? 0] => destruct (m_outst S =? 0) end; [injection E as <- _ _ _; exact I|];
+  match type of E with context [match ?EV with FArrive _ => _ | FDie _ => _ | FTimeout => _ end] => destruct EV as [ch|w0|] end;
+  [ match type of E with context [fcandidates ?S ?CR] => destruct (fcandidates S CR) as [|fc0 fcs] eqn:Efc end; [apply IH in E; exact E|];
+    match type of E with context [arrive ?C ?S ?W2] =>
+      pose proof (arrive_ny S W2) as An; destruct (arrive C S W2) as [[[idx r] st] s1'] eqn:EA; cbn [snd] in An end;
+    destruct r as [b2| |];
+    [ destruct (negb (idx =? m_rcvd s1')); [apply IH in E; cbn [upd_core m_ny] in E; rewrite An in E; exact E|];
+      match type of E with context [process_data ?C ?S ?R ?W ?ST] => destruct (process_data C S R W ST) as [o2 s4] eqn:EP end;
+      injection E as <- <- _ _; pose proof (process_data_ny _ _ _ _ _ _ EP) as Hp; cbn [upd_core m_ny] in Hp; rewrite An in Hp; exact Hp
+    | match type of E with context [try_put_index ?C ?S] => pose proof (try_put_ny S) as Tn; cbn [m_ny] in Tn; set (s2 := try_put_index C S) in * end;
+      destruct (negb (idx =? m_rcvd s2)); apply IH in E; cbn [upd_core m_ny] in E; rewrite Tn, An in E; exact E
+    | destruct (negb (idx =? m_rcvd s1')); [apply IH in E; cbn [upd_core m_ny] in E; rewrite An in E; exact E|];
+      match type of E with context [process_data ?C ?S ?R ?W ?ST] => destruct (process_data C S R W ST) as [o2 s4] eqn:EP end;
+      injection E as <- <- _ _; pose proof (process_data_ny _ _ _ _ _ _ EP) as Hp; cbn [upd_core m_ny] in Hp; rewrite An in Hp; exact Hp ]
+  | apply IH in E; exact E
+  | match type of E with context [crashed_expected ?S ?CR] => destruct (crashed_expected S CR) end;
+    [ match type of E with context [match ?EVS with [] => match fcandidates ?S ?CR with _ => _ end | _ => _ end] => destruct EVS; [destruct (fcandidates S CR)|] end;
+      try (injection E as <- _ _ _; exact I); apply IH in E; exact E
+    | injection E as <- _ _ _; exact I ] ]).
+Qed.
+End NyFrame.
+
 (* ------------------------------------------------------------------ *)
 (* snapshot_every_n_steps = 1, iterable datasets WITHOUT a state of their own: the fast-forward path of a resume — fresh workers, the
    snapshot step replayed, the last-yielded-worker cross-check — and chains of it *)
@@ -870,9 +947,47 @@ Proof.
   rewrite E. cbn zeta. exact (fresh_at_outcomes _ s' sched' G).
 Qed.
 
+Lemma skipn_cons_S {A} : forall p (l : list A) b rest, skipn p l = b :: rest -> skipn (S p) l = rest /\ p < length l.
+Proof.
+  induction p as [|p IH]; intros l b rest E.
+  - cbn in E. subst l. split; [reflexivity | cbn; lia].
+  - destruct l as [|x l]; [discriminate|]. cbn [skipn] in E. destruct (IH l b rest E) as [E1 E2]. split; [exact E1 | cbn; lia].
+Qed.
+
+(* one next() under ANY fault schedule from a fresh-at-p state: the batch that is due and a fresh-at-(p+1) state, or StopIteration when
+   nothing is left, or the worker-died error *)
+Lemma ff_fault_step p s cr evs fuel : FreshAt p s ->
+  exists o s' cr' evs', next_data_f fuel c s cr evs = (o, s', cr', evs') /\
+    (benignF o \/ match skipn p (reference c) with [] => o = FO OStop | b :: _ => o = FO (OBatch b) /\ FreshAt (S p) s' end).
+Proof.
+  intros (gw & rd & a & R & H & HR & HA & HS & HWw & HX & Eny & Hp & HPo & Hs0 & Hlen).
+  destruct (next_data_f_iter c Hkind HW HP (Bw c) 0 HW wk_fresh0 false fuel gw rd a R s _ cr evs H HR HA HS HWw HX) as (o & s' & cr' & evs' & E & Hpost).
+  exists o, s', cr', evs'. split; [exact E|]. destruct Hpost as [Hb|Hpost]; [left; exact Hb|right].
+  destruct (skipn p (reference c)) as [|b rest'] eqn:Esk; [exact Hpost|].
+  destruct Hpost as [-> (gw' & rd' & a' & R' & H' & HR' & HA' & HS' & HW' & HX' & HP')].
+  split; [reflexivity|]. destruct (skipn_cons_S p _ b rest' Esk) as [Esk' Hlt]. pose proof (next_data_f_ny c _ _ _ _ _ _ _ _ E) as Eny'. cbn in Eny'.
+  exists gw', rd', a', R'. rewrite Esk'. split; [exact H'|]. split; [exact HR'|]. split; [exact HA'|]. split; [exact HS'|]. split; [exact HW'|].
+  split; [exact HX'|]. split; [lia|]. split; [lia|]. split; [intros _; exact HP'|]. split; [intros E0; discriminate|].
+  destruct (HP' HI1) as (_ & Psn & _). rewrite Psn. exact (w_len _ _ _ _ _ _ _ _ HW').
+Qed.
+
+(* C09 + C01, fast-forward path: the checkpoint taken after ANY batch delivered under ANY fault schedule resumes exactly *)
+Theorem ff_checkpoint_after_faulty_step_resumes : forall p b s cr evs fuel s' cr' evs' sched,
+  FreshAt p s -> next_data_f fuel c s cr evs = (FO (OBatch b), s', cr', evs') ->
+  let '(sr, sched') := sdl_resume c (state_dict s') sched in
+  outcomes c (S (length (reference c) - S p)) sr sched' = map OBatch (skipn (S p) (reference c)) ++ [OStop].
+Proof.
+  intros p b s cr evs fuel s' cr' evs' sched HG E.
+  destruct (ff_fault_step p s cr evs fuel HG) as (o & s2 & cr2 & evs2 & E2 & Hpost). rewrite E in E2. injection E2 as <- <- <- <-.
+  destruct Hpost as [[[ws Hb]|Hb]|Hpost]; [discriminate | discriminate|].
+  destruct (skipn p (reference c)) as [|b0 rest']; [discriminate|]. destruct Hpost as [_ G'].
+  destruct (resume_ff (S p) s' sched G') as (sr & sched' & Er & Gr). rewrite Er. exact (fresh_at_outcomes _ sr sched' Gr).
+Qed.
+
 End EveryStepFF.
 
 Print Assumptions iter_resume_chain_I1_ff.
+Print Assumptions ff_checkpoint_after_faulty_step_resumes.
 
 (* snapshot_every_n_steps = 1, iterable datasets with OR without a state of their own: chains of checkpoint/resume are exact *)
 Theorem iter_resume_chain_default : forall c, c_kind c = KIter -> 0 < c_W c -> 0 < c_P c -> c_I c = 1 ->
